@@ -1,6 +1,31 @@
 HOOK_COMMITS = ["dcda180"]
 NOT_APPLICABLE = {}
 CHECKS = {
+ "C01": {
+  "technique": "runtime monitoring: reference-model oracle (closed-form rate laws) on the real propensity objects and on the plain/safe interface evaluation loops via guarded probes, over generated reactions, boundary states, volumes and four modes",
+  "text": "Each generated reaction is evaluated by the rebuilt code in 4 modes x 3 routes and compared (rel 1e-12) with ref.rate; every type x mode x route cell is reached >= 20 times or the run is inconclusive. Held = no mismatch on the evaluations observed.",
+  "note": "Trusted base: vlib/ref.py closed forms written from the documentation. Stochastic falling factorial asserted on integer states when a reactant repeats; safe interface expected to return 0 without the full reactant complement (C06's clause).",
+ },
+ "C02": {
+  "technique": "runtime monitoring: harness-owned expression AST printed with syntactic variety, evaluated by the real parser/terms through 7 routes and compared with a Python-float reference evaluator; negative cases must be refused at build time",
+  "text": "Random trees (depth<=4/5) over every supported operator and the sympy-colliding single-letter names are evaluated at well-conditioned points through parse_expression, general propensities and assignment rules; unknown names/unsupported functions must raise. Held = no wrong value and no accepted invalid expression on what was observed.",
+  "note": "Trusted base: the AST evaluator in vlib/ref.py; ill-conditioned points and points near Heaviside jumps are skipped and counted; valid expressions that bioscrape refuses are counted (rejected_valid), not failed.",
+ },
+ "C03": {
+  "technique": "runtime monitoring: reference stoichiometry / rate-equation oracle compared by species name across declaration orders and construction routes; negative cases with a valueless parameter must fail at initialisation",
+  "text": "Update and delay-update arrays and the reported derivative of generated reaction lists are compared with products-minus-reactants and sum (S+Sd)*rate for up to 24 species declaration orders per spec and 4 construction routes. Held = no mismatch on what was observed.",
+  "note": "Trusted base: vlib/ref.py (stoich, rates). The derivative is asserted only at points where the per-reaction rates agree with the reference, so a rate-law defect is reported once under C01/C02.",
+ },
+ "C07": {
+  "technique": "runtime monitoring: exhaustive enumeration of the option lattice of py_simulate_model executed in child processes with an output-shape/label/first-row oracle and crash capture; ASan/UBSan lane in the thorough tier",
+  "text": "All 360 option combinations x models x grids are executed; accepted outcomes are a well-formed result or a ValueError/TypeError raised by py_simulate_model itself; a crash or any other exception is 'fails from inside'. Held = every enumerated call was accepted.",
+  "note": "Trusted base: reference rule interpreter for the first row; models/grids are fixed small examples (with delays, rules, exhaustion, zero initial propensity); a child killed by a signal is an observation, not a harness failure.",
+ },
+ "C16": {
+  "technique": "runtime monitoring: icontract postcondition (observer) on PIDInterface.check_prior plus direct calls, compared with closed-form log-densities cross-checked against scipy.stats; out-of-support values must give a non-finite prior and -inf cost",
+  "text": "Seven families x random parameters x interior / near-boundary / outside values and mixed vectors with the 'positive' flag; check_prior, the single prior methods and InferenceSetup.cost_function are observed. Held = no wrong density and no finite value outside the support on what was observed.",
+  "note": "Trusted base: vlib/ref.logpdf (asserted equal to scipy.stats at child start); densities below exp(-650) are not asserted either way.",
+ },
  "C20": {
   "technique": "runtime monitoring: operation histories replayed against the real ArrayDelayQueue and a sequential reference model (unique power-of-two amounts), exhaustive short histories + random long ones; ASan/UBSan lane in the thorough tier",
   "text": "Every history up to the length bound over the discretised alphabet is executed on the real queue and compared read by read with a 20-line sequential model; random histories to length 80 add wrap-around, copies and binomial partitions. Held = no divergence on the histories executed.",
